@@ -40,6 +40,12 @@ CLAIMED = {
   level=dict(category="exploration", design_ref="DESIGN.md §3.1-3.3",
     text="Seeded search over histories: 2-7 sessions over the repo's own benchmark corpus and generated programs (incl. variables named like generated-name prefixes), steps interleaved by a seeded scheduler, perturbations at step boundaries (forward jumps of the unique-name counter, cache flushes / tiny cache sizes, gc, RNG churn, settings left behind by other users, natural errors, abandoned and repeated analyses, permuted goals), each world under its own hash seed. Oracle: every op's canonical result (closed-form values at n=0..7,12 at two generic parameter points, is_exact, inferred types as value sets, invariant ideals, refusal types) equals that of the same analysis run alone in a freshly forked pristine interpreter under PYTHONHASHSEED=0. Sampling, not enumeration; a defect identical in every history is invisible by construction."),
   note="Trusted: sim/canon.py (value comparison), the pristine-template fork (parent never analyses anything), Polar itself as its own reference. A session's option vector is re-applied before each of its steps. Step wall-clock timeouts are inconclusive."),
+"C17": dict(
+  engine="session-simulator",
+  technique="deterministic simulation: one interpreter hosting 2-4 interleaved sessions of the same program and goals under swarm-drawn option vectors applied through the real global settings seam; results checked against the default vector alone in a pristine interpreter, with attribution runs separating option effects from history effects",
+  level=dict(category="exploration", design_ref="DESIGN.md §3.4",
+    text="Seeded swarm over option vectors (transform_categoricals x cond2arithm x type_fp_iterations x solver dispatch/force_cyclic x explicit types equal to the inferred ones with inference disabled x numeric_roots x numeric_croots x numeric_eps) and over programs that make them bite (the repo's benchmarks, generated finite-state programs with categoricals and conditions, linear systems with complex / irrational / zero / repeated characteristic roots). Sessions with different vectors are interleaved step by step in one interpreter, so the process-global options churn between any two API steps. Oracle: whenever a goal succeeds under a vector and under the default vector (alone, pristine interpreter, PYTHONHASHSEED=0), representation/strategy vectors must give exactly equal values at n=0..7,12; numeric vectors may differ only when flagged rounded and only within a loose bound. A deviation that does not reproduce with the vector alone in a pristine interpreter is history dependence and is only noted. Differential comparison by sampling: a defect common to all option vectors is invisible."),
+  note="Trusted: sim/canon.py, Polar under the default vector as reference. trivial_guard and exact_func_moments are excluded from the C17 oracle. One side refusing is not a violation."),
 }
 checks = []
 for pid, c in sorted(CLAIMED.items()):
@@ -74,7 +80,7 @@ m = {
     "kind_free_text": "derives run seeds from VERIF_SEED, one fresh interpreter per batch/world with chosen PYTHONHASHSEED, shrinks and replays violations, writes evidence"},
  ],
  "checks": checks,
- "notes": "Technique family: deterministic simulation with fault injection. Fix commits in /repo: 7394bc5 (F2 TruncNormal sampler), 7b3b763 (F1 shared cli goals), f63cc8c (F5 exact_func_moments class flag), d37bec9 (F6 alias/unique name collision). Open known finding: F3 (C05). See DESIGN.md and known_findings.json.",
+ "notes": "Technique family: deterministic simulation with fault injection. Fix commits in /repo: 7394bc5 (F2 TruncNormal sampler), 7b3b763 (F1 shared cli goals), f63cc8c (F5 exact_func_moments class flag), d37bec9 (F6 alias/unique name collision), c39653f (F7 AcyclicSolver validity offsets), f6eceea (F8 CyclicSolver zero roots), 240328d (F4 numeric complex roots). Open known finding: F3 (C05). See DESIGN.md and known_findings.json.",
  "not_applicable": [{"property_id": k, "reason": v} for k, v in sorted(na.items())],
 }
 json.dump(m, open(os.path.join(V, "MANIFEST.json"), "w"), indent=1)
